@@ -269,7 +269,7 @@ struct SampleScenario : Scenario {
         static const char* f32[] = {"storm32:2", "storm32:9", "storm32:60", "fr:r-1", "fr:r", "fr:r+1", "fr:0", "fr:r-1hi", "const:255", "const:0", "const:127"};
         static const char* f48[] = {"storm48:2", "storm48:11", "fq:q-1", "fq:q", "fq:q+1", "fq:0", "fq:q-1hi", "sign:0", "sign:1", "sign:254", "const:255", "const:0", "torsion1:3", "torsion2:5", "torsion1:8", "torsion2:12"};
         auto faults = [&](const char** tab, size_t nt) { std::vector<std::string> v; if (r.chance(1, 2)) return v; int k = r.range(1, 3); for (int i = 0; i < k; i++) v.push_back(tab[r.below(nt)]); return v; };
-        static const char* kcodes[] = {"0", "1", "2", "r-1", "r", "r+1", "2r", "2r+1", "max", "2^255", "2^64", "2^64+3", "2^64-1", "2^100+12345", "2^128-1", "2^128", "2^192", "2^32", "2^63", "2^127+1"};
+        static const char* kcodes[] = {"0", "1", "2", "r-1", "r", "r+1", "2r", "2r+1", "max", "2^255", "2^64", "2^64+3", "2^64-1", "2^100+12345", "2^128-1", "2^128", "2^192", "2^32", "2^63", "2^127+1", "xd:x:0:0:0+r", "xd:x:5:0:0+r", "xd:xp1:0:0:1+r", "xd:m1:m1:0:0", "xd:1:0:0:0+r", "xd:0:1:0:m1+r", "xd:m1:0:0:0+r", "xd:x:m1:0:0+r"};
         for (int i = 0; i < n; i++) {
             int k = r.range(0, 9); int64_t ss = (int64_t) (r.next() >> 1);
             if (focus == 7) k = r.chance(3, 4) ? r.range(4, 6) : k;
@@ -277,7 +277,7 @@ struct SampleScenario : Scenario {
             if (k <= 1) { int which = r.range(0, 3); p.ops.push_back({"ZP", {ss, which}, which == 2 ? faults(f8, 15) : which == 3 ? faults(f48, 7) : faults(f32, 11)}); }
             else if (k <= 3) p.ops.push_back({"GEN", {ss, r.range(0, 1), r.range(0, 1)}, faults(f48, 16)});
             else if (k <= 5) p.ops.push_back({"GTR", {ss, (int64_t) r.below(8), r.chance(1, 4), r.chance(1, 3)}, faults(f8, 15)});
-            else if (k == 6) p.ops.push_back({"GTPOW", {(int64_t) r.below(8), r.chance(1, 3) ? 1 + 2 * (int64_t) r.below(3) : 0}, {r.chance(1, 3) ? "x" + rhex(r, 32) : std::string(kcodes[r.below(20)])}});
+            else if (k == 6) p.ops.push_back({"GTPOW", {(int64_t) r.below(8), r.chance(1, 3) ? 1 + 2 * (int64_t) r.below(3) : 0}, {r.chance(1, 3) ? "x" + rhex(r, 32) : std::string(kcodes[r.below(28)])}});
             else if (k == 7) {
                 std::string h = rhex(r, 32); int m = r.range(0, 7);
                 Bn v; if (m == 0) v = K().r; else if (m == 1) v = Bn::sub(K().r, Bn(1)); else if (m == 2) v = Bn::add(K().r, Bn(1)); else if (m == 3) v = Bn::add(K().r, Bn(1).shl(255)); else if (m == 4) v = Bn::sub(Bn(1).shl(256), Bn(1)); else if (m == 5) v = Bn::sub(Bn(1).shl(255), Bn(1));
